@@ -85,7 +85,7 @@ def spell_int(rng, v, allow=("int", "float", "dec", "hex")):
     opts = []
     if "int" in allow and v < (1 << 64):
         opts.append("int")
-    if "float" in allow and v < (1 << 53):
+    if "float" in allow and v < 10 ** 15:  # <= 15 significant digits: read exactly by serde_json (longer ones: finding K1 of C13)
         opts.append("float")
     if "dec" in allow:
         opts.append("dec")
